@@ -602,8 +602,13 @@ func (v *Validator) typeOfIn(env *requestEnv, n ast.NodeTypeIn, caps capabilityS
 				}
 			}
 			if len(rhsActions) > 0 {
-				if v.isActionInSet(*lhsEUID, rhsActions) {
+				if slices.Contains(rhsActions, *lhsEUID) {
 					return typeTrue{}, caps, nil
+				}
+				if v.isActionInSet(*lhsEUID, rhsActions) {
+					// Membership in a group holds at run time only if the action entity is in the entity
+					// store with its parents; nothing requires that, so this is not a constant.
+					return typeBool{}, caps, nil
 				}
 				return typeFalse{}, caps, nil
 			}
